@@ -512,7 +512,7 @@ def model_kinds(E, seed):
             import random
             random.seed(3)
             cl, it = st['o'].fit(S, use_parallel=False)
-            return (sorted((int(k), sorted(int(i) for i in v)) for k, v in cl.items()), [list(map(float, m)) for m in st['o'].means])
+            return (sorted((int(k), sorted(int(i) for i in v)) for k, v in cl.items()), [list(map(float, m)) for m in st['o'].means], int(it))
         kinds.append(('KMeans(%s)' % ('c' if use_c else 'py'), f_km,
                       {'fit5': lambda st: kfit(st, coll), 'fit4': lambda st: kfit(st, coll2)}))
 
@@ -530,7 +530,14 @@ def model_kinds(E, seed):
                        'kmeans': lambda st: (np.random.seed(3), km.KMeans(k=2, max_it=2, max_dba_it=2, drop_stddev=None, dists_options=st['opts'], show_progress=False).fit(coll, use_parallel=False)[0])[1]}))
     for uc in (False, True):
         add_kinds(uc)
-    inputs = [query, long_] + cands + coll + coll2
+    # one psi LIST shared by calls on series of different lengths (Python engine; the relaxation exceeds the short series)
+    pa = np.array([a0, a1, a2, a1, a0, a1])
+    pb = np.array([a1, a0, a1])
+    py_ = np.array([a2, a2, a2, a2, a0, a1, a2, a1, a0, a1])
+    kinds.append(('shared psi list(py)', lambda: {'opts': {'psi': [0, 0, 4, 4]}},
+                  {'short': lambda st: dtw.distance(pa, pb, **st['opts']), 'long': lambda st: dtw.distance(pa, py_, **st['opts']),
+                   'wps_long': lambda st: dtw.warping_paths(pa, py_, **st['opts'])[0]}))     # (warping_paths refuses a relaxation beyond the series length: not an operation of this kind)
+    inputs = [query, long_, pa, pb, py_] + cands + coll + coll2
     return kinds, inputs
 
 
